@@ -52,6 +52,44 @@ def units(tier):
             for mode in c10.MODES:
                 yield {"leg": "ref", "t": ti, "mat": mat, "mode": mode}
     yield {"leg": "cli"}
+    for mode in c10.MODES:
+        yield {"leg": "sameuri", "mode": mode}
+
+
+def _sameuri(R, mode, only):
+    """balance, re-create the file at the SAME URI with a different bin table / matrix, balance again: the second run must
+    depend on the second data only"""
+    import cooler
+    from vmc import build
+    R.add("states")
+    R.add("traces")
+    p = scratch.fresh()
+    try:
+        seq = [(0, "full"), (1, "full"), (2, "full"), (1, "checker"), (2, "mid_empty"), (1, "full"), (0, "sparse3")]
+        for step, (ti, mat) in enumerate(seq):
+            inner = {"step": step, "t": ti, "mat": mat, "mode": mode}
+            R.order = (R.order[0], step)
+            R.ev(1, 1 if step else 0)
+            R.add("transitions", 2)
+            R.cls("sameuri")
+            t, n, cells = c10.cooler_spec("s6", ti, mat)
+            bins = alpha.table_bins(t, "chr")
+            pix = {c: alpha.value(n, c[0], c[1]) for c in cells}
+            build.create(p, bins, pix, True)
+            A = np.zeros((n, n))
+            for (i, j), v in pix.items():
+                A[i, j] = A[j, i] = v
+            chrom_of = [ci for ci, c in enumerate(t) for _ in c]
+            o = c10.base_opts(mode, 1, 0, 0)
+            o["max_iters"] = 30
+            try:
+                w, st = call(cooler.Cooler(p), o, chunksize=5)
+            except Exception as e:
+                R.mismatch("raises:" + type(e).__name__, inner, f"{e!s:.200}")
+                continue
+            vs_ref(R, inner, A, chrom_of, o, w, st)
+    finally:
+        scratch.rm(p)
 
 
 def point(p):
@@ -395,5 +433,7 @@ def run(unit, R, tier, only=None):
         _ref(R, unit, only)
     elif leg == "cli":
         _cli(R, only)
+    elif leg == "sameuri":
+        _sameuri(R, unit["mode"], only)
     else:
         raise ValueError(leg)
